@@ -191,8 +191,8 @@ fn cancel_stream(lo: usize, hi: usize) -> BoxedStrategy<Vec<f64>> {
 
 fn strategy(lo: usize, hi: usize) -> BoxedStrategy<Case> {
     prop_oneof![
-        3 => cfg_among(&SK, 512, multiplier_nonneg).prop_flat_map(move |cfg| (Just(cfg), cancel_stream(lo, hi))).prop_map(|(cfg, v)| Case { cfg, scalar: true, xs: xs(&v), bars: vec![] }),
-        1 => cfg_among(&BK, 512, multiplier_nonneg).prop_flat_map(move |cfg| (Just(cfg), cancel_stream(lo, hi), cancel_stream(lo, hi), cancel_stream(lo, hi))).prop_map(|(cfg, a, b, cc)| {
+        3 => cfg_among(&SK, 512, multiplier_nonneg).prop_flat_map(move |cfg| { let h2 = hi.max(3 * cfg.n() + 40); (Just(cfg), cancel_stream(lo, h2)) }).prop_map(|(cfg, v)| Case { cfg, scalar: true, xs: xs(&v), bars: vec![] }),
+        1 => cfg_among(&BK, 512, multiplier_nonneg).prop_flat_map(move |cfg| { let h2 = hi.max(3 * cfg.n() + 40); (Just(cfg), cancel_stream(lo, h2), cancel_stream(lo, h2), cancel_stream(lo, h2)) }).prop_map(|(cfg, a, b, cc)| {
             let len = a.len().min(b.len()).min(cc.len());
             let bars = (0..len).map(|i| RawBar { o: a[i], h: a[i].max(b[i]), l: a[i].min(b[i]), c: cc[i], v: 1.0 }).collect();
             Case { cfg, scalar: false, xs: vec![], bars }
